@@ -16,35 +16,36 @@ var intrinsics map[string]intrinsicFn
 
 func init() {
 	intrinsics = map[string]intrinsicFn{
-		"NondetByte":   inNondetByte,
-		"NondetInt":    inNondetInt,
-		"NondetUint64": inNondetUint64,
-		"NondetBool":   inNondetBool,
-		"Choose":       inChoose,
-		"Assume":       inAssume,
-		"Assert":       inAssert,
-		"Fail":         inFail,
-		"B2I":          inB2I,
-		"And":          inAnd,
-		"Or":           inOr,
-		"Not":          inNot,
-		"IteInt":       inIteInt,
-		"IteByte":      inIteInt,
-		"Observe":      inObserve,
-		"ObserveBytes": inObserveBytes,
-		"ObserveStr":   inObserveBytes,
-		"Cover":        inCover,
-		"ParamInt":     inParamInt,
-		"ParamStr":     inParamStr,
-		"SliceOff":     inSliceOff,
-		"SamePtr":      inSamePtr,
-		"IsSymbolic":   inIsSymbolic,
+		"NondetByte":      inNondetByte,
+		"NondetInt":       inNondetInt,
+		"NondetUint64":    inNondetUint64,
+		"NondetBool":      inNondetBool,
+		"Choose":          inChoose,
+		"Assume":          inAssume,
+		"Assert":          inAssert,
+		"Fail":            inFail,
+		"B2I":             inB2I,
+		"And":             inAnd,
+		"Or":              inOr,
+		"Not":             inNot,
+		"IteInt":          inIteInt,
+		"IteByte":         inIteInt,
+		"Observe":         inObserve,
+		"ObserveBytes":    inObserveBytes,
+		"ObserveStr":      inObserveBytes,
+		"Cover":           inCover,
+		"ParamInt":        inParamInt,
+		"ParamStr":        inParamStr,
+		"SliceOff":        inSliceOff,
+		"SamePtr":         inSamePtr,
+		"SameArray":       inSameArray,
+		"IsSymbolic":      inIsSymbolic,
 		"LibStaticWrites": inLibStaticWrites,
-		"EndPath":      inEndPath,
-		"WrotePrint":   func(fr *frame, args []value) value { return fr.path().wrotePrint },
-		"Concretize":   inConcretize,
-		"ConcretizeByte": inConcretize,
-		"InEngine":     func(fr *frame, args []value) value { return true },
+		"EndPath":         inEndPath,
+		"WrotePrint":      func(fr *frame, args []value) value { return fr.path().wrotePrint },
+		"Concretize":      inConcretize,
+		"ConcretizeByte":  inConcretize,
+		"InEngine":        func(fr *frame, args []value) value { return true },
 	}
 }
 
@@ -245,4 +246,22 @@ func inConcretize(fr *frame, args []value) value {
 		return concreteOfKind(s.k, uint64(fr.path().concretize(fr, s)))
 	}
 	return args[0]
+}
+
+// SameArray(a, b): both are element pointers into the same abstract array.
+func inSameArray(fr *frame, args []value) value {
+	a, ok1 := args[0].(iface)
+	b, ok2 := args[1].(iface)
+	if !ok1 || !ok2 {
+		return false
+	}
+	pa, ok1 := a.v.(absPtr)
+	pb, ok2 := b.v.(absPtr)
+	if ok1 && ok2 {
+		return pa.obj == pb.obj
+	}
+	if ok1 != ok2 {
+		return false
+	}
+	panic(unsupported("SameArray on concrete pointers"))
 }
